@@ -344,6 +344,8 @@ func (its *PushPullHandler) processSubscribeOrCreate(code pushPullCase) errors.O
 			// response was lost); answer it as a subscription again instead of pushing the client's
 			// operations under the datatype id the client made up
 			return its.subscribeDatatype()
+		case caseMatchKeyNotType:
+			return its.errTypeMismatch()
 		}
 	} else if its.gotOption.HasSubscribeBit() {
 		switch code {
@@ -351,6 +353,7 @@ func (its *PushPullHandler) processSubscribeOrCreate(code pushPullCase) errors.O
 			return errors.PushPullNoDatatypeToSubscribe.New(its.ctx.L(), its.Key)
 		case caseUsedDUID:
 		case caseMatchKeyNotType:
+			return its.errTypeMismatch()
 		case caseAllMatchedSubscribed, caseAllMatchedNotSubscribed:
 			// caseAllMatchedSubscribed: a repeated subscribe request (see above)
 			return its.subscribeDatatype()
@@ -362,6 +365,7 @@ func (its *PushPullHandler) processSubscribeOrCreate(code pushPullCase) errors.O
 			return its.createDatatype()
 		case caseUsedDUID: // duplicate DUID; can create with key but with another DUID
 		case caseMatchKeyNotType: // key is already used;
+			return errors.PushPullDuplicateKey.New(its.ctx.L(), its.Key)
 		case caseAllMatchedSubscribed: // already created and subscribed; might duplicate creation; do nothing
 		case caseAllMatchedNotSubscribed: // error: already created but not subscribed;
 			return errors.PushPullDuplicateKey.New(its.ctx.L(), its.Key)
@@ -370,6 +374,13 @@ func (its *PushPullHandler) processSubscribeOrCreate(code pushPullCase) errors.O
 		}
 	}
 	return its.initClientInfoWithDatatypeDoc()
+}
+
+// errTypeMismatch refuses to subscribe to a key that holds a datatype of another type: going on
+// would attach, say, a List object to the log of a Document.
+func (its *PushPullHandler) errTypeMismatch() errors.OrdaError {
+	msg := fmt.Sprintf("%s is a %s, not a %s", its.Key, its.datatypeDoc.Type, its.gotPushPullPack.Type.String())
+	return errors.PushPullNoDatatypeToSubscribe.New(its.ctx.L(), msg)
 }
 
 func (its *PushPullHandler) subscribeDatatype() errors.OrdaError {
